@@ -1331,3 +1331,110 @@ Proof.
   pose proof (locker_moves (s_ix s) b c' x L) as M.
   destruct (astep (s_ix s) b c') as [[[ix2 b2] pn2] r2]. exact M.
 Qed.
+
+(* --- the users of the index, call by call --- *)
+
+Lemma clean_unlocked ix : clean ix -> unlocked ix /\ nonneg ix.
+Proof.
+  intros C. split; intros p td G; destruct (clean_nth ix p td C (get_nth ix p td G)) as (_ & X & R); auto. rewrite R. lia.
+Qed.
+
+Lemma rel_all_ok l : forall ix,
+  (forall p, In p l -> exists td, get ix p = Some td /\ t_excl td = false /\ (Z.of_nat (cnt p l) <= t_readers td)%Z) ->
+  rel_all ix l = Some (dec_ptr ix l).
+Proof.
+  induction l as [|x l IH]; intros ix H; [reflexivity|].
+  cbn [rel_all]. destruct (H x (or_introl eq_refl)) as (td & G & X & R).
+  rewrite cnt_cons, Nat.eqb_refl in R. unfold release. rewrite G, X.
+  destruct (t_readers td <=? 0)%Z eqn:Z0; [apply Z.leb_le in Z0; lia|].
+  change (dec_ptr ix (x :: l)) with (dec_ptr (upd ix x (add_rd (-1))) l). apply IH.
+  intros p Hp. destruct (Nat.eq_dec p x) as [->|N].
+  - rewrite get_upd_same by reflexivity. rewrite G. cbn [option_map]. eexists. split; [reflexivity|]. cbn. split; auto. lia.
+  - rewrite get_upd_other by auto. destruct (H p (or_intror Hp)) as (tp & Gp & Xp & Rp). exists tp. split; auto. split; auto.
+    rewrite cnt_cons in Rp. destruct (Nat.eqb x p) eqn:E; [apply Nat.eqb_eq in E; congruence|]. lia.
+Qed.
+
+Lemma get_dec_inc ix l q : get (dec_ptr (inc_all ix l) l) q = get ix q.
+Proof.
+  rewrite dec_ptr_shiftl, inc_all_shiftl, !get_shiftl. destruct (get ix q) as [td|]; cbn [option_map]; auto.
+  rewrite add_rd_add. match goal with |- Some (add_rd ?z _) = _ => replace z with 0%Z by lia end. rewrite add_rd_0. reflexivity.
+Qed.
+
+Lemma rel_inc_all ix l : unlocked ix -> nonneg ix -> (forall p, In p l -> exists td, get ix p = Some td) ->
+  rel_all (inc_all ix l) l = Some (dec_ptr (inc_all ix l) l).
+Proof.
+  intros U N L. apply rel_all_ok. intros p Hp. destruct (L p Hp) as (td & G).
+  rewrite inc_all_shiftl, get_shiftl, G. cbn [option_map]. eexists. split; [reflexivity|]. cbn [t_excl t_readers add_rd].
+  split; [exact (U p td G)|]. pose proof (N p td G). lia.
+Qed.
+
+Lemma sel_live ix m p : In p (sel ix m) -> exists td, get ix p = Some td.
+Proof. intros H. destruct (sel_in ix m p H) as (td & G & _). eauto. Qed.
+
+(* newCursor whose filter or position cannot be applied: every partition acquired is released exactly once *)
+Lemma u_new_cursor_err ix m o : unlocked ix -> nonneg ix -> o <> CurOk ->
+  exists ix', u_new_cursor ix m o = Some (ix', []) /\ length ix' = length ix /\ forall q, get ix' q = get ix q.
+Proof.
+  intros U N O. unfold u_new_cursor. rewrite (rel_inc_all ix (sel ix m) U N (sel_live ix m)).
+  exists (dec_ptr (inc_all ix (sel ix m)) (sel ix m)). split; [destruct o; congruence|].
+  split; [rewrite dec_ptr_shiftl, inc_all_shiftl, !length_shiftl; reflexivity|]. intros q. apply get_dec_inc.
+Qed.
+
+(* a cursor's life: newCursor acquires each selected partition once, close releases each once *)
+Lemma u_cursor_life ix m : unlocked ix -> nonneg ix ->
+  exists ix1 srcs ix', u_new_cursor ix m CurOk = Some (ix1, srcs) /\
+    (forall q td, get ix q = Some td -> get ix1 q = Some (add_rd (Z.of_nat (cnt q srcs)) td)) /\
+    u_close ix1 srcs = Some ix' /\ length ix' = length ix /\ forall q, get ix' q = get ix q.
+Proof.
+  intros U N. exists (inc_all ix (sel ix m)), (sel ix m), (dec_ptr (inc_all ix (sel ix m)) (sel ix m)).
+  split; [reflexivity|]. split.
+  { intros q td G. rewrite inc_all_shiftl, get_shiftl, G. cbn [option_map]. rewrite Z.mul_1_l. reflexivity. }
+  split; [exact (rel_inc_all ix (sel ix m) U N (sel_live ix m))|].
+  split; [rewrite dec_ptr_shiftl, inc_all_shiftl, !length_shiftl; reflexivity|]. intros q. apply get_dec_inc.
+Qed.
+
+
+(* Write: whatever the outcome, the partition is acquired once and released once *)
+Lemma u_write_ok ix tag o : unlocked ix -> nonneg ix ->
+  exists ix', u_write ix tag o = Some ix' /\
+    (forall q, q < length ix -> get ix' q = get ix q) /\
+    match find_tag ix tag with
+    | Some _ => length ix' = length ix
+    | None => length ix' = S (length ix) /\ get ix' (length ix) = Some (fresh tag)
+    end.
+Proof.
+  intros U N. unfold u_write, u_write_g, acq_tags. destruct (find_tag ix tag) as [p|] eqn:F.
+  - destruct (find_tag_some ix tag p F) as (td & G). rewrite G, (U p td G).
+    assert (R : release (upd ix p (add_rd 1)) p = Some (upd (upd ix p (add_rd 1)) p (add_rd (-1)))).
+    { unfold release. rewrite get_upd_same by reflexivity. rewrite G. cbn [option_map]. cbn [add_rd t_excl t_readers]. rewrite (U p td G).
+      pose proof (N p td G). destruct (t_readers td + 1 <=? 0)%Z eqn:Z0; [apply Z.leb_le in Z0; lia|reflexivity]. }
+    exists (upd (upd ix p (add_rd 1)) p (add_rd (-1))). split; [destruct o; exact R|]. split; [|rewrite !length_upd; reflexivity].
+    intros q _. destruct (Nat.eq_dec q p) as [->|Nq].
+    + rewrite !get_upd_same by reflexivity. rewrite G. cbn. rewrite add_rd_add. replace (1 + -1)%Z with 0%Z by lia. rewrite add_rd_0. reflexivity.
+    + rewrite !get_upd_other by auto. reflexivity.
+  - set (nw := {| t_tag := tag; t_readers := 1; t_excl := false; t_live := true |}).
+    assert (R : release (ix ++ [nw]) (length ix) = Some (upd (ix ++ [nw]) (length ix) (add_rd (-1)))).
+    { unfold release. rewrite get_app_new by lia. rewrite Nat.eqb_refl. reflexivity. }
+    exists (upd (ix ++ [nw]) (length ix) (add_rd (-1))). split; [destruct o; exact R|]. split.
+    + intros q Hq. rewrite get_upd_other by lia. apply get_app_old. exact Hq.
+    + split; [rewrite length_upd, app_length; cbn; lia|]. rewrite get_upd_same by reflexivity. rewrite get_app_new by lia. rewrite Nat.eqb_refl. reflexivity.
+Qed.
+
+(* ===== refutations of the seeded variants ===== *)
+
+(* C14-6, nobody else uses the partition: the second Release panics *)
+Lemma v6_panics : u_new_cursor_v6 (ixu 0) [0] CurPosErr = None /\ exists ix', u_new_cursor (ixu 0) [0] CurPosErr = Some (ix', []).
+Proof. split; [reflexivity|eexists; reflexivity]. Qed.
+(* C14-6, another cursor holds it (readers 1): its acquisition is consumed, and the partition can be
+   locked for deletion (GetJournalTags + LockExclusively succeed) while that cursor is open *)
+Lemma v6_consumes : exists ix' ix'', u_new_cursor_v6 (ixu 1) [0] CurPosErr = Some (ix', []) /\
+  (exists td, get ix' 0 = Some td /\ t_readers td = 0%Z) /\
+  acq_id ix' 0 true = (ix'', AGot 0) /\ snd (lockx ix'' 0) = true /\
+  (exists ix1, u_new_cursor (ixu 1) [0] CurPosErr = Some (ix1, []) /\ exists ix2, acq_id ix1 0 true = (ix2, AGot 0) /\ snd (lockx ix2 0) = false).
+Proof. do 2 eexists. split; [reflexivity|]. split; [eexists; split; reflexivity|]. split; [reflexivity|]. split; [reflexivity|].
+  eexists. split; [reflexivity|]. eexists. split; reflexivity. Qed.
+(* C14-7: after a batch that fails in the middle the count stays 1 for ever: LockExclusively of a deleter fails *)
+Lemma v7_leaks : exists ix' ix'', u_write_v7 (ixu 0) 0 WrMiddleErr = Some ix' /\
+  (exists td, get ix' 0 = Some td /\ t_readers td = 1%Z) /\
+  acq_id ix' 0 true = (ix'', AGot 0) /\ snd (lockx ix'' 0) = false.
+Proof. do 2 eexists. split; [reflexivity|]. split; [eexists; split; reflexivity|]. split; reflexivity. Qed.
